@@ -64,7 +64,7 @@ Qed.
 Lemma view_read_length w v off n d : view_read w v off n = Ok d -> zlen d <= Z.max 0 n.
 Proof.
   destruct v as [h]. unfold view_read, h_read_at.
-  destruct (off <? 0); [discriminate|]. destruct (n <=? 0) eqn:En.
+  destruct ((off <? 0) || (fs_max_offset <? off)); [discriminate|]. destruct (n <=? 0) eqn:En.
   - intro H; inversion H; subst. unfold zlen; cbn. lia.
   - destruct (hobj_ h); [|discriminate]. unfold fs_read.
     destruct (get_inode (inodes w) ino); [|discriminate].
